@@ -1,7 +1,7 @@
 use honeycomb_core::{
-    cmap::{CMap2, DartIdType, EdgeIdType, SewError},
+    cmap::{CMap2, DartIdType, EdgeIdType, LinkError, NULL_DART_ID, SewError},
     geometry::{CoordsFloat, Vertex2},
-    stm::{Transaction, TransactionClosureResult, retry, try_or_coerce},
+    stm::{Transaction, TransactionClosureResult, abort, retry, try_or_coerce},
 };
 
 use crate::utils::{EdgeAnchor, FaceAnchor, VertexAnchor};
@@ -70,6 +70,11 @@ pub fn cut_outer_edge<T: CoordsFloat>(
 
     let ld = e as DartIdType;
     let (b0ld, b1ld) = (map.beta_transac::<0>(t, ld)?, map.beta_transac::<1>(t, ld)?);
+    if b1ld == NULL_DART_ID {
+        // no successor (open face, or edge removed in the meantime): the 1-unsew below cannot
+        // succeed, and the end of the dart is not a vertex that anybody will ever define
+        abort(SewError::FailedLink(LinkError::AlreadyFree(1, ld)))?;
+    }
 
     let (vid1, vid2) = (
         map.vertex_id_transac(t, ld)?,
@@ -192,6 +197,13 @@ pub fn cut_inner_edge<T: CoordsFloat>(
 
     let (b0ld, b1ld) = (map.beta_transac::<0>(t, ld)?, map.beta_transac::<1>(t, ld)?);
     let (b0rd, b1rd) = (map.beta_transac::<0>(t, rd)?, map.beta_transac::<1>(t, rd)?);
+    for (d, b1d) in [(ld, b1ld), (rd, b1rd)] {
+        if b1d == NULL_DART_ID {
+            // no successor (open face, or edge removed in the meantime): the 1-unsews below
+            // cannot succeed, and the end of the dart is not a vertex that anybody will ever define
+            abort(SewError::FailedLink(LinkError::AlreadyFree(1, d)))?;
+        }
+    }
 
     let (vid1, vid2) = (
         map.vertex_id_transac(t, ld)?,
